@@ -49,17 +49,6 @@ Proof. intros. apply recv_wframes; [exact gen_recv_ok|assumption]. Qed.
 
 (** ** the two writers *)
 
-Definition gen_mutex : String.string :=
-  match first_lock GenC15.send_ops with Some m => m | None => ""%string end.
-
-(** programs of the two goroutines for given message bodies and given PINGs
-    (header, payload) *)
-Definition writer_frames (P : params) (m : String.string) (bodies : list (list Z)) : list (list act) :=
-  map (frame_acts_w P m) bodies.
-
-Definition reader_frames (pops : list rop) (m : String.string) (pings : list (list Z * list Z)) : list (list act) :=
-  map (fun hp => frame_acts_r pops m (fst hp) (snd hp)) pings.
-
 Theorem no_interleave_gen :
   discipline_ok GenC15.send_ops gen_ping_ops = true ->
   forall bodies pings sched,
